@@ -1,4 +1,5 @@
 import PilotaModel.Lemmas.MemAsync
+import PilotaModel.Lemmas.MemSync
 /-
   C19 — a failed decode releases everything it allocated.
 
@@ -20,6 +21,31 @@ theorem async_never_leaks {σ : Type} (R : Rd σ) (d : Doc) (f : Nat) (ty : STy)
 theorem async_decode_never_leaks {σ : Type} (R : Rd σ) (d : Doc) (n : String) (s : σ) (l : Nat)
     (h : decodeL R d false n s = .err l) : l = 0 :=
   async_never_leaks R d _ _ s l h
+
+/-- Full statement (false of the code as it is, see `list_arm_leaks`): the synchronous decoders never leak.
+Proved (`_partial`): they never leak for documents in which every list has elements that own nothing
+(scalars, uuids — `ownsNothing_scalar`), for every type, input, protocol reader and budget: the list arm is
+the ONLY place where a failing decode can leave something unreachable. -/
+theorem sync_no_leak_partial {σ : Type} (R : Rd σ) (d : Doc) (hd : DocSafe d) (f : Nat) (ty : STy) (hs : ListSafe d ty)
+    (s : σ) (l : Nat) (h : decTyL R d true f ty s = .err l) : l = 0 :=
+  (no_leak_sync_all R d hd f).1 ty s l hs h
+
+/-! non-vacuity: a document with list<i64>, set<string>, map<string, list<double>> is list-safe -/
+def safeDoc : Doc := [("S", .struct [{ id := 1, ty := .list .i64, required := false }, { id := 2, ty := .set .string, required := false },
+  { id := 3, ty := .map .string (.list .double), required := true }])]
+example : DocSafe safeDoc := by
+  refine ⟨?_, ?_, ?_⟩
+  · intro n fs h fl hfl
+    simp only [safeDoc, Doc.find, List.find?] at h
+    split at h <;> simp at h
+    subst h
+    simp at hfl
+    rcases hfl with rfl | rfl | rfl
+    · exact ⟨ownsNothing_scalar _ _ (by simp), trivial⟩
+    · trivial
+    · exact ⟨trivial, ownsNothing_scalar _ _ (by simp), trivial⟩
+  · intro n vs h; simp only [safeDoc, Doc.find, List.find?] at h; split at h <;> simp at h
+  · intro n t h; simp only [safeDoc, Doc.find, List.find?] at h; split at h <;> simp at h
 
 /- The synchronous list arm does leak (known finding D13): a struct with a `list<binary>` whose
 second element is truncated fails to decode and leaves the first element's reference to the input
